@@ -95,7 +95,7 @@ func (core *JApiCore) compileUserTypeWithAllDependencies(name string) error {
 	// Add rules before we try to do something with the type.
 	for n, r := range core.rules {
 		if err := currUT.AddRule(n, r); err != nil {
-			return jschemaToJAPIError(err, dd.GetValue(n))
+			return jschemaToJAPIError(err, dd.GetValue(name))
 		}
 	}
 
